@@ -422,13 +422,15 @@ def setBitPos (s : Stream) (p : Int) : Stream × Res :=
 def afterLenChange (s : Stream) (nb : Bits) : Stream :=
   { s with bits := nb, pos := if nb.length ≠ s.bits.length then 0 else s.pos }
 
+/-- First (`find`) or last (`rfind`) occurrence. -/
+def pick (o : List Nat) (last : Bool) : Option Nat := if last then o.getLast? else o.head?
+
 def findCommon (s : Stream) (pat : Bits) (start stop : Option Int) (aligned : Bool) (last : Bool) : Stream × Res :=
   if pat.isEmpty then (s, .err .value) else
   match validateSlice s.bits.length start stop with
   | .error e => (s, .err e)
   | .ok (a, b) =>
-    let o := occ s.bits pat a b aligned
-    match (if last then o.getLast? else o.head?) with
+    match pick (occ s.bits pat a b aligned) last with
     | none => (s, .found none)
     | some p => ({ s with pos := p }, .found (some p))
 
